@@ -1,7 +1,7 @@
 (* Proofs/Identity.v — lemmas about Model/Identity.v.
    Part 1 (C04): invariance of all identities under cfg_equiv; purity (Impl = Spec over histories).
    Part 2 (C05): discrimination, collision-explicit. *)
-From Coq Require Import List String Ascii NArith Bool Lia Permutation.
+From Coq Require Import List String Ascii NArith Arith Bool Lia Permutation DecimalString DecimalPos DecimalN.
 From SV Require Import Common.Prelude Model.Json Model.Expr Gen.SemanticIdGen Gen.IdentityGen Model.Identity
   Proofs.ExprInd Proofs.DumpInj Proofs.NormSound Proofs.NormAC Proofs.Json.
 Import ListNotations.
@@ -27,13 +27,17 @@ Definition cfg_equiv (c c' : config) : Prop := Forall2 node_equiv c c'.
 
 (* well-formedness needed by the invariance theorems: unique keys, well-formed expressions *)
 Definition vspec_knd (v : vspec) : bool := match v with VSeq vals => forallb knd vals | _ => true end.
-Definition sweep_wf (s : sweep) : bool :=
+(* strict = true additionally bounds the number of from_context variables of a sweep by one
+   (the sub-class on which the order of dependencies.context_keys cannot matter) *)
+Definition ctx_small (s : sweep) : bool := Nat.leb (List.length (raw_ctx_keys s)) 1.
+Definition sweep_wf (strict : bool) (s : sweep) : bool :=
+  (negb strict || ctx_small s) &&
   nodupb (map fst (sw_exprs s)) && nodupb (map fst (sw_vars s)) &&
   forallb (fun ke => wf (snd ke)) (sw_exprs s) && forallb (fun kv => vspec_knd (snd kv)) (sw_vars s) &&
   forallb (fun k => negb (dropped k)) (map fst (sw_exprs s) ++ map fst (sw_vars s)).
-Definition node_wf (n : node) : bool :=
-  knd (JObj (n_params n)) && match n_sweep n with Some s => sweep_wf s | None => true end.
-Definition cfg_wf (c : config) : bool := forallb node_wf c.
+Definition node_wf (strict : bool) (n : node) : bool :=
+  knd (JObj (n_params n)) && match n_sweep n with Some s => sweep_wf strict s | None => true end.
+Definition cfg_wf (strict : bool) (c : config) : bool := forallb (node_wf strict) c.
 
 (* ------------------------------------------------------------------ *)
 (* generic helpers *)
@@ -88,6 +92,9 @@ Proof.
   - apply nodup_removelast. exact N.
   - rewrite removelast_app by discriminate. reflexivity.
 Qed.
+
+Lemma Forall2_imp {A B} (P Q : A -> B -> Prop) l l' : (forall a b, P a b -> Q a b) -> Forall2 P l l' -> Forall2 Q l l'.
+Proof. intros HPQ. induction 1; constructor; auto. Qed.
 
 Lemma jeq_refl a : jeq a a.
 Proof. apply jeq_refl_all. Qed.
@@ -152,7 +159,8 @@ Qed.
 (* ------------------------------------------------------------------ *)
 Section Inv.
 Variable U5 H : string -> string.
-Hypothesis Hsorted : context_keys_sorted = true.
+Variable strict : bool.
+Hypothesis Hsorted : context_keys_sorted = true \/ strict = true.
 Hypothesis Hfields : nodupb (canon_fields ++ ["node_uuid"; "preprocessor_metadata"]) = true.
 
 Lemma nodup_app_l (l r : list string) : NoDup (l ++ r) -> NoDup l.
@@ -187,7 +195,7 @@ Proof.
   exact K.
 Qed.
 
-Lemma node_json_equiv i n n' : node_wf n = true -> node_equiv n n' -> node_json i n = node_json i n'.
+Lemma node_json_equiv i n n' : node_wf strict n = true -> node_equiv n n' -> node_json i n = node_json i n'.
 Proof.
   intros W E. unfold node_json, canon_node. apply dumps_perm_invariant.
   - rewrite knd_obj. rewrite map_fst_pair, nodup_fields. rewrite andb_true_l.
@@ -197,7 +205,7 @@ Proof.
     apply Forall_forall. intros f _. simpl. split; auto. apply canon_field_equiv; auto.
 Qed.
 
-Lemma uuids_equiv : forall c c' k, cfg_wf c = true -> cfg_equiv c c' ->
+Lemma uuids_equiv : forall c c' k, cfg_wf strict c = true -> cfg_equiv c c' ->
   uuids_from U5 k c = uuids_from U5 k c'.
 Proof.
   intros c c' k W E. revert k W. induction E as [|n n' c c' En Ec IH]; intros k W; simpl; auto.
@@ -209,10 +217,19 @@ Qed.
 Lemma raw_ctx_perm s s' : Permutation (sw_vars s) (sw_vars s') -> Permutation (raw_ctx_keys s) (raw_ctx_keys s').
 Proof. intros P. unfold raw_ctx_keys. apply Permutation_flat_map. exact P. Qed.
 
-Lemma ctx_keys_equiv s s' : Permutation (sw_vars s) (sw_vars s') -> ctx_keys s = ctx_keys s'.
+Lemma ctx_keys_equiv s s' : sweep_wf strict s = true -> Permutation (sw_vars s) (sw_vars s') -> ctx_keys s = ctx_keys s'.
 Proof.
-  intros P. unfold ctx_keys. rewrite Hsorted. apply ksort_canonical; [unfold sid; auto|].
-  apply raw_ctx_perm; auto.
+  intros W P. pose proof (raw_ctx_perm s s' P) as PR. unfold ctx_keys.
+  destruct Hsorted as [Hs|Hs].
+  - rewrite Hs. apply ksort_canonical; [unfold sid; auto|]. exact PR.
+  - assert (E : raw_ctx_keys s = raw_ctx_keys s').
+    { unfold sweep_wf in W. rewrite Hs in W. repeat (apply andb_true_iff in W as [W ?]).
+      simpl in W. unfold ctx_small in W. apply Nat.leb_le in W.
+      destruct (raw_ctx_keys s) as [|a [|b r]] eqn:Er.
+      - apply Permutation_nil in PR. auto.
+      - apply Permutation_length_1_inv in PR. auto.
+      - simpl in W. lia. }
+    rewrite E. reflexivity.
 Qed.
 
 Lemma exprs_names l l' x : exprs_equiv l l' -> mem_str x (map fst l) = mem_str x (map fst l').
@@ -242,11 +259,11 @@ Proof.
   unfold expr_sig_json. rewrite (ac_same_sig comm _ _ Wa A). apply jeq_refl.
 Qed.
 
-Lemma sweep_meta_equiv n n' s s' : sweep_wf s = true -> n_info n = n_info n' -> sweep_equiv s s' ->
+Lemma sweep_meta_equiv n n' s s' : sweep_wf strict s = true -> n_info n = n_info n' -> sweep_equiv s s' ->
   jeq (sweep_meta H n s) (sweep_meta H n' s').
 Proof.
   intros W Hi (Ee & Pv & Hm & Hb & Hc). unfold sweep_meta.
-  rewrite Hi, Hm, Hb, Hc, (req_external_equiv n n' s s' Hi Ee), (ctx_keys_equiv s s' Pv).
+  rewrite Hi, Hm, Hb, Hc, (req_external_equiv n n' s s' Hi Ee), (ctx_keys_equiv s s' W Pv).
   unfold sweep_wf in W. repeat (apply andb_true_iff in W as [W ?]).
   eapply jeq_obj; [apply Permutation_refl|].
   repeat (constructor; try apply jeq_refl).
@@ -284,18 +301,18 @@ Proof.
   simpl. apply vspec_json_knd. rewrite forallb_forall in F. apply (F _ Hy).
 Qed.
 
-Lemma sweep_meta_knd n s : sweep_wf s = true -> knd (sweep_meta H n s) = true.
+Lemma sweep_meta_knd n s : sweep_wf strict s = true -> knd (sweep_meta H n s) = true.
 Proof.
   intros W. unfold sweep_wf in W. repeat (apply andb_true_iff in W as [W ?]).
   unfold sweep_meta. rewrite knd_obj. apply andb_true_iff. split; [reflexivity|].
-  assert (A1 := knd_pe _ W). assert (A2 := knd_vars _ H3 H1).
+  assert (A1 := knd_pe _ H4). assert (A2 := knd_vars _ H3 H1).
   unfold pe_member, var_member in A1, A2.
   cbn [forallb mknd]. rewrite A1, A2.
   destruct (sw_collection s); cbn -[jstrs]; rewrite !knd_jstrs; reflexivity.
 Qed.
 
 
-Lemma node_sem_equiv n n' : node_wf n = true -> node_equiv n n' -> node_sem_id H n = node_sem_id H n'.
+Lemma node_sem_equiv n n' : node_wf strict n = true -> node_equiv n n' -> node_sem_id H n = node_sem_id H n'.
 Proof.
   intros W (Hp & _ & Hi & _ & Hs). unfold node_sem_id.
   unfold node_wf in W. apply andb_true_iff in W as [_ W].
@@ -305,7 +322,7 @@ Proof.
   - apply jeq_strip_all. apply sweep_meta_equiv; auto.
 Qed.
 
-Lemma node_sems_equiv c c' : cfg_wf c = true -> cfg_equiv c c' -> node_sems H c = node_sems H c'.
+Lemma node_sems_equiv c c' : cfg_wf strict c = true -> cfg_equiv c c' -> node_sems H c = node_sems H c'.
 Proof.
   intros W E. induction E as [|n n' c c' En Ec IH]; simpl; auto.
   simpl in W. apply andb_true_iff in W as [Wn Wc]. unfold node_sems in *. simpl.
@@ -316,7 +333,7 @@ Lemma sweep_presence n n' : node_equiv n n' ->
   (match n_sweep n with Some _ => true | None => false end) = (match n_sweep n' with Some _ => true | None => false end).
 Proof. intros (_ & _ & _ & _ & Hs). destruct (n_sweep n), (n_sweep n'); try contradiction; auto. Qed.
 
-Lemma sem_entries_equiv : forall c c' k, cfg_wf c = true -> cfg_equiv c c' ->
+Lemma sem_entries_equiv : forall c c' k, cfg_wf strict c = true -> cfg_equiv c c' ->
   sem_entries U5 H k c = sem_entries U5 H k c'.
 Proof.
   intros c c' k W E. revert k W. induction E as [|n n' c c' En Ec IH]; intros k W; simpl; auto.
@@ -328,7 +345,7 @@ Proof.
 Qed.
 
 (* canonical spec: node objects are equal up to member order *)
-Lemma spec_nodes_equiv enr : forall c c' k, cfg_wf c = true -> cfg_equiv c c' ->
+Lemma spec_nodes_equiv enr : forall c c' k, cfg_wf strict c = true -> cfg_equiv c c' ->
   jeql (spec_nodes U5 H enr k c) (spec_nodes U5 H enr k c') /\
   forallb knd (spec_nodes U5 H enr k c) = true.
 Proof.
@@ -368,7 +385,7 @@ Proof.
   induction us as [|a r IH]; simpl; auto. destruct r as [|b r]; simpl; auto.
 Qed.
 
-Lemma pipeline_pre_equiv enr c c' : cfg_wf c = true -> cfg_equiv c c' ->
+Lemma pipeline_pre_equiv enr c c' : cfg_wf strict c = true -> cfg_equiv c c' ->
   pipeline_pre U5 H enr c = pipeline_pre U5 H enr c'.
 Proof.
   intros W E. unfold pipeline_pre. destruct (spec_nodes_equiv enr c c' 0 W E) as [J K].
@@ -381,7 +398,7 @@ Proof.
     constructor; [apply jeq_refl|]. constructor.
 Qed.
 
-Theorem ids_invariant_main c c' : cfg_wf c = true -> cfg_equiv c c' ->
+Theorem ids_invariant_main c c' : cfg_wf strict c = true -> cfg_equiv c c' ->
   uuids U5 c = uuids U5 c' /\ node_sems H c = node_sems H c' /\
   (forall enr, pipeline_id U5 H enr c = pipeline_id U5 H enr c') /\
   semantic_id U5 H c = semantic_id U5 H c' /\ config_id U5 H c = config_id U5 H c'.
@@ -454,11 +471,11 @@ Proof.
   intros E. unfold required_keys. apply ksort_canonical; [unfold sid; auto|].
   apply dedup_perm. apply filter_perm.
   - intros x. f_equal. apply mem_str_perm. apply flat_map_perm2.
-    eapply Forall2_impl; [|exact E]. intros a b. apply node_created_perm.
-  - apply flat_map_perm2. eapply Forall2_impl; [|exact E]. intros a b. apply node_required_perm.
+    eapply Forall2_imp; [|exact E]. intros a b. apply node_created_perm.
+  - apply flat_map_perm2. eapply Forall2_imp; [|exact E]. intros a b. apply node_required_perm.
 Qed.
 
-Theorem ids_invariant c c' : cfg_wf c = true -> cfg_equiv c c' -> spec_ids U5 H c = spec_ids U5 H c'.
+Theorem ids_invariant c c' : cfg_wf strict c = true -> cfg_equiv c c' -> spec_ids U5 H c = spec_ids U5 H c'.
 Proof.
   intros W E. destruct (ids_invariant_main c c' W E) as (E1 & E2 & E3 & E4 & E5).
   unfold spec_ids. rewrite E1, E2, (E3 false), E4, E5, (required_invariant c c' E). reflexivity.
@@ -489,9 +506,9 @@ Lemma step_clean : enrich_on_copy = true -> forall hist st,
   Forall (fun p => snd p = false) st -> Forall (fun p => snd p = false) (fold_left step hist st).
 Proof.
   intros Hc. induction hist as [|e hist IH]; intros st F; simpl; auto.
-  apply IH. destruct e as [c|i tr|c]; simpl; auto.
+  apply IH. destruct e as [c|i tr|c]; unfold step; auto.
   - apply Forall_app. split; auto.
-  - rewrite Hc. simpl. rewrite andb_false_r. exact F.
+  - rewrite Hc. cbn [negb]. rewrite andb_false_r. exact F.
 Qed.
 
 Theorem ids_pure : enrich_on_copy = true -> forall hist i c enr,
@@ -511,3 +528,245 @@ Qed.
 Theorem inspect_pure : forall hist c, impl_inspect_ids U5 H hist c = spec_ids U5 H c.
 Proof. reflexivity. Qed.
 End Pure.
+
+(* ------------------------------------------------------------------ *)
+(* Part 2 (C05): discrimination *)
+Lemma obj_member m1 m2 k v : canon (JObj m1) = canon (JObj m2) -> In (k, v) m1 ->
+  exists v', In (k, v') m2 /\ canon v = canon v'.
+Proof.
+  intros E Hin. rewrite !canon_obj in E. injection E as E.
+  assert (I1 : In (k, canon v) (ksort fst (map cm m1))).
+  { eapply Permutation_in; [apply ksort_perm|]. apply (in_map cm _ (k, v)). exact Hin. }
+  rewrite E in I1.
+  apply (Permutation_in _ (Permutation_sym (ksort_perm _ fst (map cm m2)))) in I1.
+  apply in_map_iff in I1 as [[k' v'] [Ec I2]]. simpl in Ec. injection Ec as -> Ev.
+  exists v'. split; auto.
+Qed.
+
+Lemma print_N_numlit n : numlit_ok (print_N n) = true.
+Proof.
+  pose proof (print_N_digits n) as D. unfold numlit_ok.
+  destruct (print_N n) as [|c s] eqn:E.
+  - exfalso. assert (print_N n = print_N n) by reflexivity.
+    unfold print_N in E. destruct n; simpl in E; [discriminate|].
+    unfold NilZero.string_of_uint in E. destruct (Pos.to_uint p) eqn:Ep; simpl in E; discriminate.
+  - simpl in D. apply andb_true_iff in D as [Dc Ds]. apply andb_true_iff. split.
+    + unfold num_first. rewrite Dc. reflexivity.
+    + simpl. apply andb_true_iff. split.
+      * unfold num_char. rewrite Dc. reflexivity.
+      * eapply str_forall_impl; [|exact Ds]. intros x Hx. unfold num_char. rewrite Hx. reflexivity.
+Qed.
+
+Lemma jnat_inj i j : jnat i = jnat j -> i = j.
+Proof. unfold jnat. intros E. injection E as E. apply print_N_inj in E. lia. Qed.
+
+Definition node_ok (n : node) : bool := jok (JObj (n_params n)) && str_ok (processor_ref n).
+
+Section Disc.
+Variable U5 H : string -> string.
+Hypothesis U5_ok : forall s, str_ok (U5 s) = true.
+Hypothesis H_ok : forall s, str_ok (H s) = true.
+Hypothesis Hcf : canon_fields = ["role"; "processor_ref"; "params"; "ports"; "declaration_index"; "declaration_subindex"].
+Hypothesis Hsf : pipeline_sem_fields = ["name"; "node_uuid"; "payload_from"].
+
+Lemma canon_node_jok i n : node_ok n = true -> jok (canon_node i n) = true.
+Proof.
+  intros W. unfold node_ok in W. apply andb_true_iff in W as [Wp Wr].
+  unfold canon_node. rewrite Hcf. cbn [map canon_field String.eqb Ascii.eqb Bool.eqb].
+  rewrite jok_obj. apply andb_true_iff. split; [reflexivity|].
+  cbn [forallb mok]. cbn [jok] in *. rewrite Wr, Wp. unfold jnat. cbn [jok]. rewrite print_N_numlit. reflexivity.
+Qed.
+
+(* what a node uuid determines *)
+Lemma node_json_inj i j n m : node_ok n = true -> node_ok m = true -> node_json i n = node_json j m ->
+  i = j /\ processor_ref n = processor_ref m /\ canon (JObj (n_params n)) = canon (JObj (n_params m)).
+Proof.
+  intros Wn Wm E. unfold node_json in E.
+  apply dumps_sorted_inj in E; try apply canon_node_jok; auto.
+  unfold canon_node in E. rewrite Hcf in E. cbn [map] in E.
+  assert (Fi : In "declaration_index" canon_fields) by (rewrite Hcf; simpl; auto 10).
+  destruct (obj_member _ _ "declaration_index" _ E ltac:(simpl; auto 10)) as [v1 [I1 C1]].
+  destruct (obj_member _ _ "processor_ref" _ E ltac:(simpl; auto 10)) as [v2 [I2 C2]].
+  destruct (obj_member _ _ "params" _ E ltac:(simpl; auto 10)) as [v3 [I3 C3]].
+  simpl in I1, I2, I3.
+  repeat (destruct I1 as [I1|I1]; [try discriminate I1|]); try contradiction.
+  repeat (destruct I2 as [I2|I2]; [try discriminate I2|]); try contradiction.
+  repeat (destruct I3 as [I3|I3]; [try discriminate I3|]); try contradiction.
+  injection I1 as <-. injection I2 as <-. injection I3 as <-.
+  cbn [canon_field String.eqb Ascii.eqb Bool.eqb] in C1, C2, C3.
+  split; [|split].
+  - simpl in C1. apply jnat_inj. exact C1.
+  - simpl in C2. injection C2; auto.
+  - exact C3.
+Qed.
+
+(* within one pipeline all node uuids have distinct preimages, even for identical nodes *)
+Theorem node_uuid_distinct_in_pipeline i j n m : node_ok n = true -> node_ok m = true -> i <> j ->
+  node_json i n <> node_json j m.
+Proof. intros Wn Wm Hij E. apply Hij. apply (node_json_inj i j n m Wn Wm E). Qed.
+
+Definition node_fields (n : node) : string * json := (processor_ref n, canon (JObj (n_params n))).
+Definition sem_fields (c : config) : list (string * json) := map node_fields c.
+
+Lemma hash_eq (f : string -> string) a b : f a = f b -> a = b \/ Collision f.
+Proof. intros E. destruct (string_dec a b); auto. right. exists a, b. auto. Qed.
+
+Lemma uuids_fields : forall c1 c2 k, forallb node_ok c1 = true -> forallb node_ok c2 = true ->
+  uuids_from U5 k c1 = uuids_from U5 k c2 -> sem_fields c1 = sem_fields c2 \/ Collision U5.
+Proof.
+  induction c1 as [|n c1 IH]; intros [|m c2] k W1 W2 E; simpl in *; try discriminate; auto.
+  apply andb_true_iff in W1 as [Wn W1]. apply andb_true_iff in W2 as [Wm W2].
+  injection E as Eu Er. unfold node_uuid in Eu.
+  destruct (hash_eq U5 _ _ Eu) as [Ej|C]; auto.
+  destruct (IH c2 (S k) W1 W2 Er) as [Ef|C]; auto.
+  left. f_equal; auto. destruct (node_json_inj k k n m Wn Wm Ej) as (_ & E1 & E2).
+  unfold node_fields. rewrite E1, E2. reflexivity.
+Qed.
+
+(* the pipeline semantic id determines the list of node uuids *)
+Lemma sem_entry_jok u n : str_ok u = true -> jok (sem_entry H u n) = true.
+Proof.
+  intros Wu. unfold sem_entry. rewrite Hsf. cbn [map String.eqb Ascii.eqb Bool.eqb].
+  destruct (n_sweep n); [destruct sem_includes_sweep|]; rewrite jok_obj; (apply andb_true_iff; split; [reflexivity|]);
+    cbn [app forallb mok jok]; rewrite Wu; unfold node_sem_id; try rewrite H_ok; try reflexivity.
+  destruct (n_sweep n); try rewrite H_ok; reflexivity.
+Qed.
+
+Lemma sem_entry_uuid u u' n n' : canon (sem_entry H u n) = canon (sem_entry H u' n') -> u = u'.
+Proof.
+  intros E. unfold sem_entry in E. rewrite Hsf in E. cbn [map String.eqb Ascii.eqb Bool.eqb] in E.
+  destruct (obj_member _ _ "node_uuid" (JStr u) E ltac:(simpl; auto)) as [v [I C]].
+  simpl in C. cbn [app In] in I.
+  destruct I as [I|[I|[I|I]]]; try discriminate I.
+  - injection I as <-. injection C; auto.
+  - destruct (n_sweep n'); [destruct sem_includes_sweep|]; simpl in I; try contradiction.
+    destruct I as [I|[]]. discriminate I.
+Qed.
+
+Lemma sem_entries_uuids : forall c1 c2 k,
+  map canon (sem_entries U5 H k c1) = map canon (sem_entries U5 H k c2) ->
+  uuids_from U5 k c1 = uuids_from U5 k c2.
+Proof.
+  induction c1 as [|n c1 IH]; intros [|m c2] k E; cbn [sem_entries map uuids_from] in *; try discriminate; auto.
+  assert (E1 := f_equal (@hd json JNull) E). assert (E2 := f_equal (@tl json) E).
+  cbn [hd tl] in E1, E2. f_equal.
+  - eapply sem_entry_uuid. exact E1.
+  - apply IH. exact E2.
+Qed.
+
+Lemma sem_entries_jok : forall c k, forallb jok (sem_entries U5 H k c) = true.
+Proof.
+  induction c as [|n c IH]; intros k; cbn [sem_entries forallb]; auto.
+  rewrite sem_entry_jok; [|apply U5_ok]. rewrite IH. reflexivity.
+Qed.
+
+Theorem semantic_id_uuids c1 c2 : semantic_id U5 H c1 = semantic_id U5 H c2 ->
+  uuids U5 c1 = uuids U5 c2 \/ Collision H.
+Proof.
+  unfold semantic_id. intros E. apply append_inj_l in E.
+  destruct (hash_eq H _ _ E) as [Ep|C]; auto. left.
+  unfold semantic_pre in Ep. apply prefixed_dumps_inj in Ep.
+  - unfold semantic_struct in Ep. simpl in Ep. injection Ep as Ep. apply sem_entries_uuids. exact Ep.
+  - unfold semantic_struct. simpl. rewrite sem_entries_jok. reflexivity.
+  - unfold semantic_struct. simpl. rewrite sem_entries_jok. reflexivity.
+Qed.
+
+Theorem semantic_id_discriminates c1 c2 : forallb node_ok c1 = true -> forallb node_ok c2 = true ->
+  semantic_id U5 H c1 = semantic_id U5 H c2 ->
+  sem_fields c1 = sem_fields c2 \/ Collision U5 \/ Collision H.
+Proof.
+  intros W1 W2 E. destruct (semantic_id_uuids c1 c2 E) as [Eu|C]; auto.
+  destruct (uuids_fields c1 c2 0 W1 W2 Eu); auto.
+Qed.
+
+(* node semantic id: determines the sanitized sweep block *)
+Definition sweep_block (n : node) : option json :=
+  match n_sweep n with Some s => Some (canon (strip (sweep_meta H n s))) | None => None end.
+
+Theorem node_sem_discriminates n m s s' : n_sweep n = Some s -> n_sweep m = Some s' ->
+  jok (strip (sweep_meta H n s)) = true -> jok (strip (sweep_meta H m s')) = true ->
+  node_sem_id H n = node_sem_id H m -> sweep_block n = sweep_block m \/ Collision H.
+Proof.
+  intros En Em Jn Jm E. unfold node_sem_id, sweep_block in *. rewrite En, Em in *.
+  destruct (hash_eq H _ _ E) as [Ep|C]; auto. left. f_equal.
+  unfold node_sem_pre in Ep. apply prefixed_dumps_inj in Ep; auto.
+Qed.
+
+(* config id: determines the uuid-sorted list of (uuid, node semantic id) pairs *)
+Lemma pair_json_inj l1 l2 : map canon (map pair_json l1) = map canon (map pair_json l2) -> l1 = l2.
+Proof.
+  revert l2. induction l1 as [|[a b] l1 IH]; intros [|[a' b'] l2] E; simpl in *; try discriminate; auto.
+  injection E as -> -> E. f_equal. auto.
+Qed.
+
+Theorem config_id_pairs c1 c2 : config_id U5 H c1 = config_id U5 H c2 ->
+  ksort fst (pairs U5 H c1) = ksort fst (pairs U5 H c2) \/ Collision H.
+Proof.
+  unfold config_id. intros E. apply append_inj_l in E.
+  destruct (hash_eq H _ _ E) as [Ep|C]; auto. left.
+  unfold config_pre in Ep.
+  assert (J : forall c, jok (config_struct U5 H c) = true).
+  { intros c. unfold config_struct. simpl. apply forallb_forall. intros x Hx.
+    apply in_map_iff in Hx as [[u s] [<- Hin]]. simpl.
+    assert (Hp : In (u, s) (pairs U5 H c)) by (eapply Permutation_in; [apply Permutation_sym, ksort_perm|exact Hin]).
+    unfold pairs in Hp. pose proof (in_combine_l _ _ _ _ Hp) as Hu. pose proof (in_combine_r _ _ _ _ Hp) as Hs.
+    assert (Su : str_ok u = true).
+    { clear -Hu U5_ok. unfold uuids in Hu. generalize dependent 0%nat. induction c as [|n c IH]; simpl; intros k Hu; [contradiction|].
+      destruct Hu as [<-|Hu]; [apply U5_ok|eauto]. }
+    assert (Ss : str_ok s = true).
+    { unfold node_sems in Hs. apply in_map_iff in Hs as [n [<- _]]. unfold node_sem_id.
+      destruct (n_sweep n); [apply H_ok|reflexivity]. }
+    rewrite Su, Ss. reflexivity. }
+  apply dumps_sorted_inj in Ep; auto.
+  unfold config_struct in Ep. simpl in Ep. injection Ep as Ep. apply pair_json_inj. exact Ep.
+Qed.
+
+End Disc.
+
+(* what the sanitized sweep block determines, field by field *)
+Section Block.
+Variable H : string -> string.
+Hypothesis Hui : ui_only_keys = ["preprocessor_view"].
+Hypothesis Hdk : node_sem_dropped_key = "expr".
+
+Definition pe_json (s : sweep) : json :=
+  JObj (map (fun ke => (fst ke, JObj [("sig", expr_sig_json (snd ke))])) (sw_exprs s)).
+Definition vars_json (s : sweep) : json :=
+  JObj (map (fun kv => (fst kv, vspec_json H (snd kv))) (sw_vars s)).
+
+Theorem sweep_block_fields n m s s' : n_sweep n = Some s -> n_sweep m = Some s' ->
+  sweep_block H n = sweep_block H m ->
+  pi_fqcn (n_info n) = pi_fqcn (n_info m) /\ sw_mode s = sw_mode s' /\ sw_broadcast s = sw_broadcast s' /\
+  sw_collection s = sw_collection s' /\
+  canon (strip (pe_json s)) = canon (strip (pe_json s')) /\
+  canon (strip (vars_json s)) = canon (strip (vars_json s')).
+Proof.
+  intros En Em E. unfold sweep_block in E. rewrite En, Em in E.
+  apply (f_equal (fun o => match o with Some x => x | None => JNull end)) in E. cbv beta iota in E.
+  unfold sweep_meta in E. rewrite !strip_obj in E.
+  unfold strip_m, dropped in E. rewrite Hui, Hdk in E.
+  cbn [mem_str String.eqb Ascii.eqb Bool.eqb orb] in E.
+  fold (pe_json s) (pe_json s') (vars_json s) (vars_json s') in E.
+  destruct (obj_member _ _ "element_ref" _ E ltac:(simpl; auto 12)) as [v1 [I1 C1]].
+  destruct (obj_member _ _ "mode" _ E ltac:(simpl; auto 12)) as [v2 [I2 C2]].
+  destruct (obj_member _ _ "broadcast" _ E ltac:(simpl; auto 12)) as [v3 [I3 C3]].
+  destruct (obj_member _ _ "collection" _ E ltac:(simpl; auto 12)) as [v4 [I4 C4]].
+  destruct (obj_member _ _ "param_expressions" _ E ltac:(simpl; auto 12)) as [v5 [I5 C5]].
+  destruct (obj_member _ _ "variables" _ E ltac:(simpl; auto 12)) as [v6 [I6 C6]].
+  cbn [In] in I1, I2, I3, I4, I5, I6.
+  repeat (destruct I1 as [I1|I1]; [try discriminate I1|]); try contradiction.
+  repeat (destruct I2 as [I2|I2]; [try discriminate I2|]); try contradiction.
+  repeat (destruct I3 as [I3|I3]; [try discriminate I3|]); try contradiction.
+  repeat (destruct I4 as [I4|I4]; [try discriminate I4|]); try contradiction.
+  repeat (destruct I5 as [I5|I5]; [try discriminate I5|]); try contradiction.
+  repeat (destruct I6 as [I6|I6]; [try discriminate I6|]); try contradiction.
+  injection I1 as <-. injection I2 as <-. injection I3 as <-. injection I4 as <-. injection I5 as <-. injection I6 as <-.
+  repeat split.
+  - simpl in C1. injection C1; auto.
+  - simpl in C2. injection C2; auto.
+  - simpl in C3. injection C3; auto.
+  - destruct (sw_collection s), (sw_collection s'); simpl in C4; try discriminate C4; auto. injection C4 as ->. reflexivity.
+  - exact C5.
+  - exact C6.
+Qed.
+End Block.
